@@ -664,7 +664,11 @@ impl Parser {
                 Ok(Expr::untyped(ExprEnum::Block(stmts), meta))
             }
             None => {
-                let meta = self.tokens.peek().unwrap().1;
+                // at the end of the input there is no next token to take the location from
+                let meta = self.tokens.peek().map(|t| t.1).unwrap_or(MetaInfo {
+                    start: (0, 0),
+                    end: (0, 0),
+                });
                 Ok(Expr::untyped(ExprEnum::TupleLiteral(vec![]), meta))
             }
         }
